@@ -5,6 +5,7 @@ import (
 	"fmt"
 	"io"
 	"sort"
+	"strings"
 	"time"
 
 	blocks "github.com/ipfs/go-block-format"
@@ -158,6 +159,30 @@ func judgeC02(l *Layout, m Mut, reader string, res scanResult) *Violation {
 	}
 	reported := res.constructErr != nil || !res.clean
 	switch m.Kind {
+	case "none":
+		if reader == "inspect" {
+			if reported {
+				return viol("medium/valid-rejected/"+reader, "%s rejected a valid archive: %v %v", reader, res.constructErr, res.endErr)
+			}
+			break
+		}
+		if res.constructErr != nil {
+			break // e.g. the CARv1 readers refuse an archive without roots
+		}
+		if !res.clean {
+			if strings.Contains(fmt.Sprint(res.endErr), "no roots") {
+				break
+			}
+			return viol("medium/valid-rejected/"+reader, "%s failed on a valid archive after %d blocks: %v", reader, len(res.blocks), res.endErr)
+		}
+		if len(res.blocks) != len(l.Payload.Sections) {
+			return viol("medium/wrong-block-count/"+reader+"@valid", "%s returned %d blocks of a valid archive with %d", reader, len(res.blocks), len(l.Payload.Sections))
+		}
+		for i, b := range res.blocks {
+			if !b.c.Equals(l.Payload.Sections[i].Cid) {
+				return viol("medium/wrong-block/"+reader+"@valid", "%s returned %s as block #%d of a valid archive, want %s", reader, b.c, i, l.Payload.Sections[i].Cid)
+			}
+		}
 	case "flip":
 		region, _ := l.Region(m.Off)
 		if region == "sec-data" || region == "sec-digest" {
@@ -228,7 +253,9 @@ func RunC02(t *Trace, st *Stats) *Violation {
 	seen := map[string]bool{}
 	n := int64(len(l.Image))
 	var muts []Mut
+	muts = append(muts, Mut{Kind: "none"}) // the valid image itself: every reader must return exactly its blocks
 	big := n > 20000
+	long := !big && n > 3000
 	if big {
 		// a large section: cutting at every byte is out of reach, so cut where chunked or buffered
 		// reading could plausibly go wrong: multiples of 4 KiB / 16 KiB counted from the start of the
@@ -276,6 +303,32 @@ func RunC02(t *Trace, st *Stats) *Violation {
 		for k := 0; k < 48; k++ {
 			muts = append(muts, Mut{Kind: "flip", Off: int64(r.Intn(int(n))), Bit: r.Intn(8)})
 		}
+	} else if long {
+		// many small sections, longer than any reader's buffer: cut at every section boundary +-1 and
+		// at multiples of 512; flip sampled bits
+		st.Probe("c02:long-image")
+		cuts := map[int64]bool{}
+		for _, sec := range l.Payload.Sections {
+			for _, d := range []int64{-1, 0, 1, int64(sec.LenSize)} {
+				if o := l.DataOffset + sec.Off + d; o > 0 && o < n {
+					cuts[o] = true
+				}
+			}
+		}
+		for o := int64(512); o < n; o += 512 {
+			cuts[o] = true
+		}
+		var cl []int64
+		for o := range cuts {
+			cl = append(cl, o)
+		}
+		sort.Slice(cl, func(i, j int) bool { return cl[i] < cl[j] })
+		for _, o := range cl {
+			muts = append(muts, Mut{Kind: "trunc", Off: o})
+		}
+		for k := 0; k < 200; k++ {
+			muts = append(muts, Mut{Kind: "flip", Off: int64(r.Intn(int(n))), Bit: r.Intn(8)})
+		}
 	} else {
 		for off := int64(0); off < n; off++ {
 			muts = append(muts, Mut{Kind: "trunc", Off: off})
@@ -293,7 +346,12 @@ func RunC02(t *Trace, st *Stats) *Violation {
 	}
 	dels := []sim.Delivery{{ErrAt: -1}, GenDelivery(r)}
 	for _, m := range muts {
-		data := l.ApplyMuts([]Mut{m})
+		var data []byte
+		if m.Kind == "none" {
+			data = l.Image
+		} else {
+			data = l.ApplyMuts([]Mut{m})
+		}
 		region, _ := l.Region(m.Off)
 		for ri, reader := range verifyingReaders {
 			if !applicableReader(l, reader, opts) {
@@ -357,7 +415,17 @@ func GenC02(seed uint64, run int) *Trace {
 			spec.Blocks[i].Size = r.Range(0, 70)
 		}
 	}
-	if r.Chance(1, 10) {
+	if r.Chance(1, 8) {
+		// many small sections: longer than the 4 KiB buffers readers use
+		spec.Blocks = spec.Blocks[:0]
+		for i, n := 0, r.Range(70, 140); i < n; i++ {
+			spec.Blocks = append(spec.Blocks, BlkSpec{Kind: Pick(r, []string{"raw", "cbor", "v0", "sha1"}), Seed: uint64(200 + i), Size: r.Range(0, 60)})
+		}
+		if len(spec.Roots) == 0 {
+			spec.Roots = []BlkSpec{{Kind: "raw", Seed: 200, Size: 0}}
+		}
+		spec.NullPad = 0
+	} else if r.Chance(1, 10) {
 		// one large section (beyond 64 KiB, the size at which chunked reading becomes plausible)
 		spec.Blocks = append(spec.Blocks[:min(len(spec.Blocks), 2)], BlkSpec{Kind: Pick(r, []string{"raw", "cbor", "v0"}), Seed: 40, Size: Pick(r, []int{65537, 131072 + 5, 70000, 200000})})
 		if len(spec.Roots) == 0 {
